@@ -18,6 +18,8 @@ CLAIMED = {
           "Bounds: op sequences <= 4 (quick) / 5, decorator depth 2/3, <= 2 columns, strings <= 2 bytes, histories K=2/3. User-supplied text is assumed NUL-free; pgx codecs are modelled by contract.", "DESIGN.md §7 C02"),
  "C03": C("Bounded symbolic model checking of buffer.Reader's real code: for every client byte stream of up to 5+N bytes, every declared length, every segmentation (symbolic short reads) and every leftover pre-state, ReadTypedMsg equals an independent reference framing function; for every body of up to N bytes and every sequence of accessor calls, the accessors equal an independent cursor and never panic.",
           "Bounds: N=3/5 (framing), N=5/6 with 2/3 accessor calls, limit L=8. bufio.Reader internals below the BufferedReader interface are trusted in H03a.", "DESIGN.md §7 C03"),
+ "C04": C("The engine turns every index/slice/nil-dereference/type-assertion failure of the real code into a solver-decided branch, so 'no input can crash the server' is decided as the absence of a feasible escaping panic over: one client message of ANY type byte with an arbitrary body (and arbitrary trailing bytes) from a session with live statement/portal whose callbacks use the library's helpers on client data (ParseParameters, Parameter.Scan, the binary COPY row reader); a fresh connection sending arbitrary bytes; serve with the transport failing from a symbolic k-th read or write on (returns within the step budget, connection closed); and every make executed while handling a message carries a size obligation decided for all declared lengths and counts at once.",
+          "Bounds: body N=6/8, trailing T=6/10, fresh-connection bytes B=10/14, fault points k<=4 reads / 9 writes, limit 16. Allocation obligations: byte buffers <= max(limit,4096), element counts <= 65535. handleParse's empty loop over the declared 16-bit count is bounded (<=65535 iterations) and kept <=2 in harnesses. 'Other connections continue' = no escaping panic + C15; the real Accept loop is not executed.", "DESIGN.md §7 C04"),
  "C05": C("One inductive step of the result writer from an arbitrary pre-state (closed flag, any 64-bit counter, 0-2 columns) for every operation, which covers operation sequences of any length; plus handleSimpleQuery with a symbolic query text and solver-chosen parser/statement behaviours against a reference cycle automaton (ordered results, single ErrorResponse stops later statements, exactly one ReadyForQuery last, blank query bypasses the parser).",
           "Bounds: query text <= 2/3 bytes (ASCII), parser returns error/0/1/2 statements, statement scripts {row+Complete, error, Complete, row+error}. pgx codecs modelled by contract.", "DESIGN.md §7 C05"),
  "C06": C("Histories of K extended-query messages over known and unknown names run through the real command loop body; a black-box reference automaton written from the protocol text decides each step from client messages, captured replies and the callback trace: designated reply per message, exactly one ReadyForQuery per Sync and none otherwise, one ErrorResponse then silence and no callbacks until Sync, unknown names are errors and the connection stays up.",
@@ -32,12 +34,18 @@ CLAIMED = {
           "Bounds: H10a continues past the check only for bodies <= N=3/6; Slurp L<=2/3, size <= 3L+2; 64-bit int.", "DESIGN.md §7 C10"),
  "C12": C("Server.serve on a startup packet whose parameter area is N arbitrary bytes (duplicates, empty values, missing terminators are solver-reachable) with 0-2 configured global parameters and an optional version string, against a reference parse: callbacks see exactly the client's pairs, the reply is AuthenticationOk, one ParameterStatus per configured key plus the built-ins with the stated values (session_authorization = user), then exactly one ReadyForQuery(idle); the configured map is not modified; a CancelRequest first or after an SSLRequest is closed without reply or callback.",
           "Bounds: N=8/10. Map iteration modelled as insertion order (the statement does not order ParameterStatus messages). Cross-connection leakage is C15.", "DESIGN.md §7 C12"),
+ "C13": C("CopyReader.Read step by step over K client messages with SYMBOLIC type byte and body (CopyData -> payload byte-exact in order, Flush/Sync skipped, CopyDone -> io.EOF, CopyFail or any other type -> non-nil non-EOF, the reader itself writes nothing), and the whole COPY cycle through handleSimpleQuery with a statement that starts COPY-in and reads until an error, a solver-chosen client message sequence and a solver-chosen point at which the handler stops: CopyInResponse announces the format per column, abort => exactly one ErrorResponse and one ReadyForQuery, success => CommandComplete ReadyForQuery, stray COPY messages afterwards are ignored without reply.",
+          "Bounds: K=2/3 messages, payloads <= 2/3 bytes, 1-2 columns. A client stream that simply ends inside COPY is C04's.", "DESIGN.md §7 C13"),
+ "C14": C("The binary COPY row reader on the standard header followed by R ARBITRARY bytes (tuples, corrupt field counts and lengths, trailer), cut into CopyData messages at solver-chosen split points; the reference decodes the unsplit stream; rows, NULLs, errors and end-of-stream must agree for every split, a wrong field count or truncated field is an error and never a panic or a fabricated row. One open known finding (KF-C14-1: a tuple spanning two CopyData messages is not reassembled) is carved out by its exact condition (a split point that is not a tuple boundary) and reported as KNOWN-FINDING; every other split must agree.",
+          "Bounds: R=8/11 bytes, <=1/2 splits, 1-2 text columns (pgx TextCodec.DecodeValue executed from its own code). Header concrete (flags 0, no extension); streams ending without the trailer and empty CopyData chunks are outside the claim.", "DESIGN.md §7 C14"),
  "C17": C("The error value is built by a solver-chosen nesting of D decorators (code, severity, hint, detail, source, constraint, fmt %w wrapping, none) with symbolic payload bytes; the emitted ErrorResponse is parsed by an independent strict grammar and compared field for field with a reference walking the same choices (outermost wins, defaults ERROR/XXUUU, each field at most once, line as decimal text); nil error -> FATAL/XX000.",
           "Bounds: D=2/3, payloads 1-2 non-NUL bytes, source line 0..999. strconv.Itoa and fmt.Errorf are modelled.", "DESIGN.md §7 C17"),
  "C18": C("H18a is a one-step inductive lemma on the reader's message window with a fully symbolic header (offset, length, capacity and requested size all range over 0..2^31): the next window never overlaps bytes exposed through an earlier one, so data handed to callbacks is never overwritten, for histories of any length.",
           "H18a touches no elements (header-only). Retained-view harness H18b is registered when built.", "DESIGN.md §7 C18"),
  "C19": C("Server.serve with m middlewares registered through the real option functions (failing position symbolic) followed by a solver-chosen command history: every middleware runs once, in registration order, after AuthenticationOk and the ParameterStatus messages and before the first ReadyForQuery, each seeing its predecessors' context values; a failure ends the connection with no ReadyForQuery and no command callback; every parser/statement call's context carries all middleware values, client and server parameters, remote address and type map, and is cancelled when the command ends while the session context is not; Terminate runs the hook once (also without a hook: no panic) and closes the connection.",
           "Bounds: m <= 2/3, K=2/3 commands from {Q, Parse, Bind, Execute, Terminate}. Not asserted: that nothing pipelined behind Terminate is looked at (the statement does not forbid it).", "DESIGN.md §7 C19"),
+ "C20": C("ParseParameters on a query of Q ARBITRARY bytes against an independent scan: never panics, allocations bounded by the 65535-parameter limit (one solver query per allocation site over all indices), length = highest positional index for $n-style and number of markers for ?-style, all entries unspecified; a single $n marker with 1..8(22) digits (beyond 2^63 in the thorough tier); and the Describe-statement count equals the reported length.",
+          "Bounds: Q=6/7 bytes; the regexp engine is replaced by a hand-written matcher for the one pattern `\\$(\\d+)|\\?` (validated by native replay of witness models against the real regexp), strconv.Atoi by an exact model; mixed $n/? queries are outside the claim.", "DESIGN.md §7 C20"),
 }
 
 def main():
